@@ -1063,7 +1063,7 @@ def part_b_processes(chk, corpus):
             chk.count("proc:" + canon_json([cfg, runs[:i + 1]]),
                       i > 0 and (alone[canon_json([cfg, spec])]["result"][0] == "ok"))
         if fails:
-            small = shrink_process_history(cfg, runs, probe)
+            small = shrink_process_history(cfg, runs, obs, al, probe)
             chk.violation("the outcome of a run depends on what ran earlier in the same process: " + fails[0],
                           {"kind": "process-history", "provider": cfg, "runs": small, "probe": probe, "failures": fails[:5]})
             return n
@@ -1080,25 +1080,29 @@ def part_b_processes(chk, corpus):
 
 def eval_process_history(cfg, runs, probe):
     obs = in_subprocess({"cfg": cfg, "runs": runs, "probe": probe})
-    alone = [in_subprocess({"cfg": cfg, "runs": [s], "probe": probe})[0] for s in runs]
+    alone = [o[0] for o in subprocess_many([{"cfg": cfg, "runs": [s], "probe": probe} for s in runs])]
     return process_history_failures(cfg, runs, obs, alone), obs, alone
 
 
-def shrink_process_history(cfg, runs, probe):
-    cur = list(runs)
-    changed = True
-    budget = 40
-    while changed and budget > 0:
-        changed = False
-        for i in range(len(cur)):
-            cand = cur[:i] + cur[i + 1:]
-            budget -= 1
-            if cand and eval_process_history(cfg, cand, probe)[0]:
-                cur, changed = cand, True
-                break
-            if budget <= 0:
-                break
-    return cur
+def shrink_process_history(cfg, runs, obs, alone, probe):
+    """cut the history after the first run that differs from its fresh-process result, then look (one parallel batch of
+    subprocesses) for a single earlier run that is enough to make it differ"""
+    first = None
+    for i, (spec, o, a) in enumerate(zip(runs, obs, alone)):
+        if process_history_failures(cfg, [spec], [o], [a]):
+            first = i
+            break
+    if first is None:
+        return list(runs)
+    prefix = list(runs[:first + 1])
+    if first == 0:
+        return prefix
+    pairs = [[runs[j], runs[first]] for j in range(first)]
+    res = subprocess_many([{"cfg": cfg, "runs": pr, "probe": probe} for pr in pairs])
+    for pr, o in zip(pairs, res):
+        if process_history_failures(cfg, pr, o, [alone[runs.index(pr[0])], alone[first]]):
+            return pr
+    return prefix
 
 
 # ----------------------------------------------------------------------------------------- part C: threads
@@ -1106,8 +1110,8 @@ def part_c_threads(chk, corpus):
     I = impl()
     rng = chk.rng
     thorough = chk.tier == "thorough"
-    n_seeds = 10 if thorough else 3
-    n_tasks = 400 if thorough else 64
+    n_seeds = 8 if thorough else 3
+    n_tasks = 300 if thorough else 64
     pool = [c for c in corpus if c["src"] != "tests-metadata"]
     total = 0
     seq_cache = {}
